@@ -114,7 +114,13 @@ def St.handover (st : St) (name : Str) : St := st.fr (fun fs => fs.handover st.c
 def St.closeKeep (st : St) : St := st.fr (fun fs => fs.closeKeep st.clock)
 /-- a Task's delegate publishes the request; the reply arrives (unless the Task runs into its time limit) -/
 def St.request (st : St) (timedOut : Bool) : St := st.fr (fun fs => fs.request st.clock timedOut)
-def St.pushLevel (st : St) : St := st.fr FS.pushLevel
+def St.pushLevel (st : St) (mc : Nat) : St := st.fr (fun fs => fs.pushLevel mc)
+/-- the state is visited: its kind joins the skeleton -/
+def St.visit (st : St) (ty : Str) : St :=
+  st.fr (fun fs => fs.visit (if ty = S "Task" then .tq else if ty = S "Wait" then .w else if ty = S "Fail" then .f
+    else if ty = S "Parallel" || ty = S "Map" then .fan else .s))
+/-- the visit in progress fails its scope (nobody handles its error) -/
+def St.failTok (st : St) : St := st.fr FS.failTok
 /-- the delegate of a Parallel / Map state publishes the events of the branches `names` -/
 def St.launch (st : St) (names : List Str) : St := st.fr (fun fs => fs.launch st.clock names)
 def St.startBranch (st : St) : St := st.fr FS.startBranch
@@ -156,14 +162,30 @@ def St.batch (st : St) (name : Str) (names : List Str) : St := st.fr (fun fs => 
 @[simp] theorem St.request_fanFail (st : St) (b : Bool) : (st.request b).fanFail = st.fanFail := rfl
 @[simp] theorem St.request_clock (st : St) (b : Bool) : (st.request b).clock = st.clock := rfl
 @[simp] theorem St.request_times (st : St) (b : Bool) : (st.request b).times = st.times := rfl
-@[simp] theorem St.pushLevel_counts (st : St)  : (st.pushLevel ).counts = st.counts := rfl
-@[simp] theorem St.pushLevel_trace (st : St)  : (st.pushLevel ).trace = st.trace := rfl
-@[simp] theorem St.pushLevel_multiFail (st : St)  : (st.pushLevel ).multiFail = st.multiFail := rfl
-@[simp] theorem St.pushLevel_tieFail (st : St)  : (st.pushLevel ).tieFail = st.tieFail := rfl
-@[simp] theorem St.pushLevel_log (st : St)  : (st.pushLevel ).log = st.log := rfl
-@[simp] theorem St.pushLevel_fanFail (st : St)  : (st.pushLevel ).fanFail = st.fanFail := rfl
-@[simp] theorem St.pushLevel_clock (st : St)  : (st.pushLevel ).clock = st.clock := rfl
-@[simp] theorem St.pushLevel_times (st : St)  : (st.pushLevel ).times = st.times := rfl
+@[simp] theorem St.pushLevel_counts (st : St) (mc : Nat) : (st.pushLevel mc).counts = st.counts := rfl
+@[simp] theorem St.visit_counts (st : St) (ty : Str) : (st.visit ty).counts = st.counts := rfl
+@[simp] theorem St.failTok_counts (st : St) : st.failTok.counts = st.counts := rfl
+@[simp] theorem St.pushLevel_trace (st : St) (mc : Nat) : (st.pushLevel mc).trace = st.trace := rfl
+@[simp] theorem St.visit_trace (st : St) (ty : Str) : (st.visit ty).trace = st.trace := rfl
+@[simp] theorem St.failTok_trace (st : St) : st.failTok.trace = st.trace := rfl
+@[simp] theorem St.pushLevel_multiFail (st : St) (mc : Nat) : (st.pushLevel mc).multiFail = st.multiFail := rfl
+@[simp] theorem St.visit_multiFail (st : St) (ty : Str) : (st.visit ty).multiFail = st.multiFail := rfl
+@[simp] theorem St.failTok_multiFail (st : St) : st.failTok.multiFail = st.multiFail := rfl
+@[simp] theorem St.pushLevel_tieFail (st : St) (mc : Nat) : (st.pushLevel mc).tieFail = st.tieFail := rfl
+@[simp] theorem St.visit_tieFail (st : St) (ty : Str) : (st.visit ty).tieFail = st.tieFail := rfl
+@[simp] theorem St.failTok_tieFail (st : St) : st.failTok.tieFail = st.tieFail := rfl
+@[simp] theorem St.pushLevel_log (st : St) (mc : Nat) : (st.pushLevel mc).log = st.log := rfl
+@[simp] theorem St.visit_log (st : St) (ty : Str) : (st.visit ty).log = st.log := rfl
+@[simp] theorem St.failTok_log (st : St) : st.failTok.log = st.log := rfl
+@[simp] theorem St.pushLevel_fanFail (st : St) (mc : Nat) : (st.pushLevel mc).fanFail = st.fanFail := rfl
+@[simp] theorem St.visit_fanFail (st : St) (ty : Str) : (st.visit ty).fanFail = st.fanFail := rfl
+@[simp] theorem St.failTok_fanFail (st : St) : st.failTok.fanFail = st.fanFail := rfl
+@[simp] theorem St.pushLevel_clock (st : St) (mc : Nat) : (st.pushLevel mc).clock = st.clock := rfl
+@[simp] theorem St.visit_clock (st : St) (ty : Str) : (st.visit ty).clock = st.clock := rfl
+@[simp] theorem St.failTok_clock (st : St) : st.failTok.clock = st.clock := rfl
+@[simp] theorem St.pushLevel_times (st : St) (mc : Nat) : (st.pushLevel mc).times = st.times := rfl
+@[simp] theorem St.visit_times (st : St) (ty : Str) : (st.visit ty).times = st.times := rfl
+@[simp] theorem St.failTok_times (st : St) : st.failTok.times = st.times := rfl
 @[simp] theorem St.launch_counts (st : St) (ns : List Str) : (st.launch ns).counts = st.counts := rfl
 @[simp] theorem St.launch_trace (st : St) (ns : List Str) : (st.launch ns).trace = st.trace := rfl
 @[simp] theorem St.launch_multiFail (st : St) (ns : List Str) : (st.launch ns).multiFail = st.multiFail := rfl
@@ -478,7 +500,7 @@ def runFrom (env : Env) : Nat → Json → Str → Json → Json → Nat → St 
     | none => (.failed (S "States.Runtime") (some (.str (S "<cause>"))) false, st)
     | some state =>
       let ctx := ctxFor ctx name retries
-      let st := st.enter (stateType state) name data retries
+      let st := (st.enter (stateType state) name data retries).visit (stateType state)
       runState env fuel states name state data ctx retries st
 termination_by structural fuel => fuel
 
@@ -533,7 +555,7 @@ def handleErr (env : Env) : Nat → Json → Str → Json → Json → Json → 
           if (render data').length > env.maxData then
             (.failed (S "States.DataLimitExceeded") (some (.str (S "<cause>"))) false, st.fanFailedIf state)
           else runFrom env fuel states next data' ctx 0 ((st.exit (stateType state) name data').handover next)
-    | .uncaught => (.failed e (causeOf msg) false, st.fanFailedIf state)
+    | .uncaught => (.failed e (causeOf msg) false, (st.fanFailedIf state).failTok)
 termination_by structural fuel => fuel
 
 /-- the work of one state -/
@@ -635,7 +657,7 @@ def runState (env : Env) : Nat → Json → Str → Json → Json → Json → N
         | .ok params =>
           let names := (listOf (fld state "Branches")).map (fun b => (fldStr b "StartAt").getD [])
           let (r, st) := runBranches env fuel (listOf (fld state "Branches")) params ctx
-            (((st.push (.fanStarted ty none)).pushLevel).launch names)
+            (((st.push (.fanStarted ty none)).pushLevel 0).launch names)
           joinAndLeave env fuel states name state data ctx retries r (st.join (isErr r))
     else if ty = S "Map" then
       let st := st.closeKeep
@@ -656,7 +678,7 @@ def runState (env : Env) : Nat → Json → Str → Json → Json → Json → N
           let st := if items.isEmpty then st else st.push (.fanStarted ty (some items.length))
           let mc : Nat := match fld state "MaxConcurrency" with | some (.num n) => n.toNat | _ => 0
           let first := List.replicate (if mc = 0 then items.length else min mc items.length) ((fldStr proc "StartAt").getD [])
-          let (r, st) := runItems env fuel proc selector input items 0 mc st.clock ctx ((st.pushLevel).launch first)
+          let (r, st) := runItems env fuel proc selector input items 0 mc st.clock ctx ((st.pushLevel mc).launch first)
           joinAndLeave env fuel states name state data ctx retries r (st.join (isErr r))
     else (.failed (S "States.Runtime") (some (.str (S "<cause>"))) false, st)
 termination_by structural fuel => fuel
@@ -751,6 +773,8 @@ structure Outcome where
   a Task ran into its time limit (its late reply is not modelled) -/
   tieJoin : Bool
   late : Bool
+  /-- the run's skeleton: the state visits in order, fan-outs with their branches (`Tok`) -/
+  sk : List Tok
 
 /-- number of task invocations: the occurrence counts of all (function, payload) pairs -/
 def St.requests (st : St) : Nat := (st.counts.map (fun kn => kn.2)).sum
@@ -791,7 +815,7 @@ def Outcome.ofRun (input : Json) (r : Res) (st : St) : Outcome :=
     log := st.log.reverse, requests := st.requests, fanFail := st.fanFail
     history := historyOf input r st, notifications := notificationsOf r
     times := timesOf r st, endTime := st.clock
-    steps := (endFS r st).steps.reverse, tieJoin := st.fs.tieJoin, late := st.fs.late }
+    steps := (endFS r st).steps.reverse, tieJoin := st.fs.tieJoin, late := st.fs.late, sk := st.fs.toks.reverse }
 
 /-- the run of the top scope (a definition without `StartAt` / `States` is the runtime error) -/
 def runCore (env : Env) (fuel : Nat) (asl input ctx : Json) : Res × St :=
